@@ -263,7 +263,16 @@ class Parts(object):
         self.TRUSTED_EXTRA = sum((list(getattr(p, "TRUSTED_EXTRA", [])) for p in parts), [])
 
     def _p(self, case):
-        return self.parts[case["_part"]]
+        return self.parts[case.get("_part", 0)]      # replay files written before a property had parts: first part
+
+    def shrink(self, case, failure):
+        p = self._p(case)
+        if not hasattr(p, "shrink"):
+            return case
+        out = p.shrink(case, failure)
+        if "_part" in case:
+            out = dict(out, _part=case["_part"])
+        return out
 
     def corpus(self):
         return [dict(c, _part=i) for i, p in enumerate(self.parts) for c in (p.corpus() if hasattr(p, "corpus") else [])]
